@@ -1530,7 +1530,9 @@ class VacancyMediated(object):
             OSprobV = self.OSfolddown*np.sqrt(prob[self.vstar2kin])  # proper null space projection
             biasSbar = np.dot(OSprobV, biasSvec)
             om2bar = np.dot(OSprobV, np.dot(om2, OSprobV.T))  # OS x OS
-            etaSbar = np.dot(pinv(om2bar), biasSbar)
+            # om2bar is singular (uniform translation of all complexes): its null space has to be identified on the
+            # scale of the omega2 rates, as a roundoff-level 1x1 matrix would otherwise be inverted
+            etaSbar = np.dot(pinv(om2bar, atol=1e-10 * np.abs(om2).max()), biasSbar)
             dDss = np.dot(np.dot(self.vkinetic.outer[:, :, self.OSindices, :, ][:, :, :, self.OSindices],
                                  etaSbar), biasSbar) / self.N
             D0ss += dDss
